@@ -413,31 +413,38 @@ def run(ctx):
             ctx.und("R30.1", f"{SD}::{fname}", "missing", sd.relpath)
             continue
         ctx.saw_func(fi)
-        lams = [x for x in ast.walk(fi.node) if isinstance(x, ast.Lambda)]
+        pa, pscale, ploc = fi.params()[:3]
+        lams = [x for x in ast.walk(fi.node) if isinstance(x, ast.Lambda) and isinstance(x.body, ast.Call) and src(x.body.func) == "invgamma.ppf"]
         good = bool(lams)
         det = []
+        inner = [n for n in ast.walk(fi.node) if isinstance(n, ast.FunctionDef) and n is not fi.node]
+        # how the closure applies parameters outside the table: {guard text or '': expression}
+        outer = []
+        for fn_ in inner:
+            for r in ast.walk(fn_):
+                if isinstance(r, ast.Return) and r.value is not None:
+                    g = [src(t.test) for t in ast.walk(fn_) if isinstance(t, ast.If) and any(x is r for b in t.body for x in ast.walk(b))]
+                    outer.append((g, src(r.value)))
         for lam in lams:
             b = lam.body
             xarg = lam.args.args[0].arg
-            okk = isinstance(b, ast.Call) and src(b.func) == "invgamma.ppf" and b.args and src(b.args[0]) in (f"norm._cdf({xarg})", f"norm.cdf({xarg})") \
-                and any(k.arg == "a" and src(k.value) == fi.params()[0] for k in b.keywords)
-            kws = {k.arg: src(k.value) for k in b.keywords} if isinstance(b, ast.Call) else {}
-            if "loc" in kws or "scale" in kws:
-                okk = okk and kws.get("loc") == fi.params()[2] and kws.get("scale") == fi.params()[1]
-            det.append(src(b))
+            okk = bool(b.args) and src(b.args[0]) in (f"norm._cdf({xarg})", f"norm.cdf({xarg})") and any(k.arg == "a" and src(k.value) == pa for k in b.keywords)
+            kws = {k.arg: src(k.value) for k in b.keywords}
+            okk = okk and all(kws.get(k, v) == v for k, v in (("scale", pscale), ("loc", ploc)))
+            # guard of this lambda: is it the loc == 0 specialisation?
+            lg = [src(t.test) for t in ast.walk(fi.node) if isinstance(t, ast.If) and any(x is lam for bb in t.body for x in ast.walk(bb))]
+            loc0 = any(g_.replace(" ", "") in (f"{ploc}==0.0", f"{ploc}==0") for g_ in lg)
+            rel = [e for g, e in outer if (any(x.replace(" ", "") in (f"{ploc}==0.0", f"{ploc}==0") for x in g) == loc0)] or [e for g, e in outer]
+            txt = " ".join(rel).replace(" ", "")
+            scale_out = f"*{pscale}" in txt or f"{pscale}*" in txt
+            loc_out = f"+{ploc}" in txt or f"-{ploc}" in txt
+            n_scale = int("scale" in kws) + int(scale_out)
+            n_loc = int("loc" in kws) + int(loc_out) + int(loc0)
+            okk = okk and n_scale == 1 and n_loc == 1
+            det.append(f"{src(b)} [scale: table {'scale' in kws}, outside {scale_out}; loc: table {'loc' in kws}, outside {loc_out}, specialised to 0: {loc0}]")
             good = good and okk
-        ctx.check("R30.1", f"{SD}::{fname} tabulates invgamma.ppf(norm cdf(x), a[, loc, scale]) with its own parameters", good, "; ".join(det), fi)
-    fi = sd.functions.get("invgamma_prior")
-    if fi is not None:
-        inner = [n for n in fi.node.body if isinstance(n, ast.FunctionDef)]
-        okk = None
-        if len(inner) == 1:
-            rets = [(r, [src(t.test) for t in ast.walk(inner[0]) if isinstance(t, ast.If) and any(x is r for x in ast.walk(t))])
-                    for r in ast.walk(inner[0]) if isinstance(r, ast.Return)]
-            scaled = [src(r.value) for r, g in rets if "* scale" in src(r.value) or "scale *" in src(r.value)]
-            guards = [g for r, g in rets if "scale" in src(r.value)]
-            okk = len(scaled) == 1 and guards == [["loc == 0.0"]]
-        ctx.check("R30.1", f"{SD}::invgamma_prior multiplies by `scale` exactly when it was pulled out of the table (loc == 0)", okk, None, fi)
+        ctx.check("R30.1", f"{SD}::{fname} tabulates invgamma.ppf(norm cdf(x), a[, loc, scale]) and applies each of scale / loc exactly once "
+                           "(in the table or in the closure)", good, "; ".join(det), fi)
     # ---------------------------------------------------------------- classic operators
     spd = m.module(SPD)
     U = m.cls(SPD, "UniformOperator")
@@ -716,3 +723,144 @@ def run(ctx):  # noqa: F811
     _run_c30c(ctx)
     r30_3(ctx, ctx.model)
     r30_4(ctx, ctx.model)
+
+
+# ---------------------------------------------------------------------------------------------------------------- R30.5 - R30.7
+_STABLE_SELFTEST = '''
+def f(m, s):
+    a = log(1.0 + (s / m) ** 2)
+    b = np.exp(a) - 1
+    c = jnp.log(s**2 / m**2 + 1)
+    return a, b, c
+'''
+
+
+def unstable_forms(fn):
+    """log(1 + x) and exp(x) - 1 spelled out (lose x below machine epsilon; log1p / expm1 do not)"""
+    out = []
+    for z in ast.walk(fn):
+        if isinstance(z, ast.Call) and call_name(z) == "log" and len(z.args) == 1 and isinstance(z.args[0], ast.BinOp) and isinstance(z.args[0].op, ast.Add):
+            a, b = z.args[0].left, z.args[0].right
+            if any(isinstance(q, ast.Constant) and q.value in (1, 1.0) for q in (a, b)):
+                out.append((z, "log(1 + x)", "log1p"))
+        if isinstance(z, ast.BinOp) and isinstance(z.op, ast.Sub) and isinstance(z.right, ast.Constant) and z.right.value in (1, 1.0) \
+                and isinstance(z.left, ast.Call) and call_name(z.left) == "exp":
+            out.append((z, "exp(x) - 1", "expm1"))
+    return out
+
+
+def r30_5(ctx, m):
+    R = "R30.5"
+    ctx.rule(R, "moment matching and closed-form transforms over the whole supported parameter range: no log(1 + x) or exp(x) - 1 "
+                "spelled out in the prior-transform modules (log1p / expm1 keep x below machine epsilon - a tight log-normal prior "
+                "with std/mean < sqrt(eps) otherwise gets log-std 0 and a constant transform)", floor=4)
+    t = ast.parse(_STABLE_SELFTEST)
+    if len(unstable_forms(t)) != 3:
+        from ..model import AnalysisError
+        raise AnalysisError("R30.5: self-test of the unstable-form matcher failed")
+    for mn, names in ((SD, None), ("nifty.cl.utilities", {"lognormal_moments", "value_reshaper"}), (SPD, None), ("nifty.cl.operators.normal_operators", None)):
+        mod = m.module(mn, required=False)
+        if mod is None:
+            continue
+        for fi in mod.all_functions:
+            if names is not None and fi.name not in names:
+                continue
+            if not any(isinstance(z, ast.Call) and call_name(z) in ("log", "log1p", "exp", "expm1", "sqrt") for z in walk_no_nested(fi.node)):
+                continue
+            ctx.saw_func(fi)
+            bad = [(z, a, b) for z, a, b in unstable_forms(fi.node) if any(q is z for q in walk_no_nested(fi.node))]
+            ctx.check(R, f"{fi.key}::no cancellation-prone log(1+x) / exp(x)-1", not bad,
+                      "; ".join(f"`{short(z, 50)}` is {a}: use {b}" for z, a, b in bad) if bad else "", fi, bad[0][0] if bad else None)
+
+
+def r30_6(ctx, m):
+    R = "R30.6"
+    ctx.rule(R, "value_reshaper (parameters of NormalTransform / LognormalTransform): the documented case table is complete - scalars AND "
+                "arrays of length one fill the target, arrays of shape (N,) pass; the fill branch must admit shape (1,)", floor=1)
+    fi = m.func("nifty.cl.utilities", "value_reshaper", required=False)
+    if fi is None:
+        ctx.und(R, "nifty.cl.utilities::value_reshaper", "function missing", "nifty/cl/utilities.py")
+        return
+    ctx.saw_func(fi)
+    key = f"{fi.key}::length-one arrays take the fill branch"
+    fills = [st for st in walk_no_nested(fi.node) if isinstance(st, ast.If) and any(isinstance(z, ast.Call) and call_name(z) == "full" for b in st.body for z in ast.walk(b))]
+    if len(fills) != 1:
+        ctx.und(R, key, f"{len(fills)} fill branches", fi)
+        return
+    t = src(fills[0].test).replace(" ", "")
+    covers = "(1,)" in t or "size==1" in t or "size<=1" in t or "size<2" in t
+    only_scalar = ("ndim==0" in t or "shape==()" in t) and not covers
+    ctx.check(R, key, True if covers else (False if only_scalar else None), f"fill branch under `{src(fills[0].test)}`", fi, fills[0])
+
+
+def r30_7(ctx, m):
+    R = "R30.7"
+    ctx.rule(R, "provided inverses are injective where the transform is: inverse() / *_invprior apply no clamp (clip, minimum, maximum, "
+                "nan_to_num) to their argument - a clamp maps every tail value onto the clamp's quantile, so inverse(transform(x)) != x "
+                "for |x| beyond it", floor=2)
+    mods = [(SPD, lambda fi: fi.name == "inverse"), (SD, lambda fi: "invprior" in fi.name or fi.name.endswith("_to_standard"))]
+    n = 0
+    for mn, sel in mods:
+        mod = m.module(mn, required=False)
+        if mod is None:
+            continue
+        for fi in mod.all_functions:
+            if not sel(fi):
+                continue
+            n += 1
+            ctx.saw_func(fi)
+            bad = [z for z in ast.walk(fi.node) if isinstance(z, ast.Call) and call_name(z) in ("clip", "minimum", "maximum", "nan_to_num", "fmin", "fmax")]
+            ctx.check(R, f"{fi.key}::no clamp on the way back", not bad, f"`{short(bad[0], 60)}`" if bad else "", fi, bad[0] if bad else None)
+    if not n:
+        ctx.und(R, "inverse transforms", "none found", SPD)
+
+
+_run_c30d = run
+
+
+def run(ctx):  # noqa: F811
+    _run_c30d(ctx)
+    r30_5(ctx, ctx.model)
+    r30_6(ctx, ctx.model)
+    r30_7(ctx, ctx.model)
+
+
+# ---------------------------------------------------------------------------------------------------------------- R30.8
+def r30_8(ctx, m):
+    R = "R30.8"
+    ctx.rule(R, "tabulated transforms kept in log space (interpolator(..., table_func=log)): the tabulated function is positive for "
+                "every admissible parameter - a location shift (`loc=`) is applied outside the table, never inside the quantile "
+                "function whose logarithm is stored (for loc < 0 the shifted quantiles are negative and the table is NaN)", floor=2)
+    sd = m.module(SD)
+    n = 0
+    for fi in sd.all_functions:
+        if fi.parent is not None:
+            continue
+        for c in walk_no_nested(fi.node):
+            if not (isinstance(c, ast.Call) and call_name(c) == "interpolator"):
+                continue
+            tf = next((k.value for k in c.keywords if k.arg == "table_func"), None)
+            if tf is None or not src(tf).endswith("log"):
+                continue
+            n += 1
+            ctx.saw_func(fi)
+            f0 = c.args[0] if c.args else None
+            lams = [f0] if isinstance(f0, ast.Lambda) else []
+            if isinstance(f0, ast.Name):
+                lams = [st.value for st in ast.walk(fi.node) if isinstance(st, ast.Assign) and src(st.targets[0]) == f0.id and isinstance(st.value, ast.Lambda)]
+            key = f"{fi.key}::log-space table holds unshifted (positive) quantiles"
+            if not lams:
+                ctx.und(R, key, f"tabulated function `{src(f0) if f0 is not None else None}` not resolved", fi, c)
+                continue
+            shifted = [src(l.body) for l in lams if any(isinstance(z, ast.keyword) and z.arg == "loc" for z in ast.walk(l.body))]
+            ctx.check(R, key, not shifted, f"`{shifted[0][:80]}` carries the shift into the logarithm" if shifted else "", fi, c)
+    if not n:
+        ctx.und(R, f"{SD}::log-space tables", "none found", sd.relpath)
+
+
+_run_c30e = run
+
+
+def run(ctx):  # noqa: F811
+    _run_c30e(ctx)
+    r30_8(ctx, ctx.model)
